@@ -22,8 +22,19 @@ struct Arguments {
     open: bool,
 }
 
-#[tokio::main]
-async fn main() {
+fn main() {
+    // Transforms recurse once per nesting level (up to the depth limit); tokio's
+    // default 2 MiB worker stacks overflow - aborting the whole server - on
+    // documents nested well within that limit.
+    tokio::runtime::Builder::new_multi_thread()
+        .enable_all()
+        .thread_stack_size(16 * 1024 * 1024)
+        .build()
+        .expect("Failed to build tokio runtime")
+        .block_on(async_main());
+}
+
+async fn async_main() {
     let args = Arguments::parse();
     let address = if args.address.is_ipv6() {
         format!("[{}]:{}", args.address, args.port)
